@@ -153,7 +153,10 @@ def run_scenario(xvc, sc):
                 ok = ok or b in cache_bytes_for.get(p, []) or (p in dest_of and b in cache_bytes_for.get(dest_of[p], []))
                 if not ok:
                     # the CR/LF alias class (P2): the cache holds another byte string with the same text normal form
-                    alias = any(cb != b and R.strip_crlf(cb) == R.strip_crlf(b) for cb in cache_bytes_for.get(p, []))
+                    # (under the record of the path, or of the destination its record moved to -- the same places
+                    #  the bytes themselves are looked for above)
+                    held = cache_bytes_for.get(p, []) + (cache_bytes_for.get(dest_of[p], []) if p in dest_of else [])
+                    alias = any(cb != b and R.strip_crlf(cb) == R.strip_crlf(b) for cb in held)
                     out["alias"] = out["alias"] or alias
                     out["problems"].append({"after": it, "path": p, "lost": b[:40].hex(), "now": (after.get(p) or b"")[:40].hex() if p in after else None,
                                             "klass": "alias" if alias else None, "stderr": r.err[-200:]})
